@@ -4,6 +4,8 @@ import TantivyModel.Proofs.PhraseSlop
 import TantivyModel.Proofs.OrderEnc
 import TantivyModel.Proofs.LeafTree
 import TantivyModel.Proofs.JsonRange
+import TantivyModel.Proofs.FastRange
+import TantivyModel.Proofs.Carrying
 import TantivyModel.Proofs.PhraseAlign
 import TantivyModel.Proofs.PhraseExact
 import TantivyModel.Gen.PhraseScorer
@@ -374,6 +376,23 @@ theorem C03_search_eq_answer_concrete (scoring : Bool) (c : Corpus)
   C03_search_eq_answer leafTree singleClauseGuard scoring c
     (fun s hs => leafTree_soundOn s.docs (hdw s hs)) hwf q hok
 
+/-- the same with every hypothesis in executable form — exactly what the driver evaluates on each
+case (`C03 wf <corpus>`, `C03 ok <query>`): whenever both answer 1, `search` = `answer` -/
+theorem C03_search_eq_answer_checked (scoring : Bool) (c : Corpus) (q : Query)
+    (hwf : c.all (fun s => docsWfB s.docs && s.alive.length == s.docs.length) = true)
+    (hok : okQ singleClauseGuard q = true) :
+    searchIds leafTree singleClauseGuard scoring c q = answer q c := by
+  have h := List.all_eq_true.mp hwf
+  apply C03_search_eq_answer_concrete scoring c _ _ q hok
+  · intro s hs
+    have := h s hs
+    simp only [Bool.and_eq_true, beq_iff_eq] at this
+    exact this.2
+  · intro s hs
+    have := h s hs
+    simp only [Bool.and_eq_true] at this
+    exact docsWfB_sound s.docs this.1
+
 /-! ## S6: phrases of ≥ 3 terms with slop ≥ 1 -/
 
 /-- adjusted positions `a@0 … b@3 … c@5` (a document `a x x b x c` for the phrase "a b c"):
@@ -459,6 +478,57 @@ theorem C03_range_paths_agree (w : Nat) (lo hi : BndN) (v : Nat) (hv : v < 256 ^
   unfold inRange inRangeN
   cases lo <;> cases hi <;> simp only [bndBe, bndBelow] at hlo hhi ⊢ <;>
     simp [L, R, hlo, hhi] <;> rw [Bool.eq_iff_iff] <;> simp <;> omega
+
+/-! ## the ≥ 3-term slop algorithm (`intersection_count_with_carrying_slop`): what does hold -/
+
+/-- whatever slops are carried in, the carrying intersection reports no match and keeps no position
+when no occurrence pair of the two lists is within the slop (no sortedness needed) -/
+theorem C03_carrying_no_pair_no_match (L S R : List Nat) (slop : Nat)
+    (hfar : ∀ a ∈ L, ∀ b ∈ R, slop < dist a b) :
+    PhraseSlop.carrying L S R slop = (0, [], []) :=
+  PhraseSlop.carrying_far L S R slop hfar
+
+/-- hence, whatever slops are carried in (any fold step, any number of terms, no sortedness): a
+positive count means that some occurrence pair of the two lists is within the slop -/
+theorem C03_carrying_count_pos_implies_pair (L S R : List Nat) (slop : Nat)
+    (h : 0 < (PhraseSlop.carrying L S R slop).1) : ∃ a, a ∈ L ∧ ∃ b, b ∈ R ∧ dist a b ≤ slop := by
+  apply Classical.byContradiction
+  intro hn
+  have hfar : ∀ a ∈ L, ∀ b ∈ R, slop < dist a b := by
+    intro a ha b hb
+    apply Nat.lt_of_not_le
+    intro hle
+    exact hn ⟨a, ha, b, hb, hle⟩
+  rw [C03_carrying_no_pair_no_match L S R slop hfar] at h
+  exact Nat.lt_irrefl 0 h
+
+/-- first fold step (no slops carried in, increasing lists): the count is positive exactly when
+some occurrence pair is within the slop — until its first hit the loop moves like
+`intersection_exists_with_slop` -/
+theorem C03_carrying_first_step_exact (L R : List Nat) (slop : Nat)
+    (hl : L.Pairwise (· ≤ ·)) (hr : R.Pairwise (· ≤ ·)) :
+    0 < (PhraseSlop.carrying L [] R slop).1 ↔ ∃ a, a ∈ L ∧ ∃ b, b ∈ R ∧ dist a b ≤ slop :=
+  PhraseSlop.carrying_first_step L R slop hl hr
+
+/-- a sloppy phrase of ≥ 3 terms: on a document in which the first two processed terms have no
+occurrence pair within the slop, the scoring path, the no-scoring path and the budget meaning all
+say "no match" (the paths can only disagree — `C03_phrase_slop3_inconsistent` — once the first
+pair is within the slop) -/
+theorem C03_phrase_slop3_far_agree (a b : List Nat) (rest : List (List Nat)) (hrest : rest ≠ [])
+    (slop : Nat) (hfar : ∀ x ∈ a, ∀ y ∈ b, slop < dist x y) :
+    PhraseSlop.phraseOff (a :: b :: rest) slop = false ∧ PhraseSlop.phraseOn (a :: b :: rest) slop = false
+      ∧ phraseSlop (a :: b :: rest) slop = false := by
+  have h := PhraseSlop.phrase3_far a b rest hrest slop hfar
+  refine ⟨h.1, h.2, ?_⟩
+  simp only [phraseSlop, slopChain]
+  rw [List.any_eq_false]
+  intro x hx
+  simp only [Bool.not_eq_true]
+  rw [List.any_eq_false]
+  intro y hy
+  have := hfar x hx y hy
+  simp only [Bool.not_eq_true, Bool.and_eq_false_iff, decide_eq_false_iff_not]
+  left; omega
 
 /-! ## the phrase scorer's per-document state -/
 
@@ -590,6 +660,27 @@ theorem C03_phrase_prefix_gap (d : ADoc) (f : Nat) (t pre : Bytes) (g : Nat) :
     simp at hot; subst hot
     exact ⟨pos, hpos, by simp⟩
 
+/-! ## fast-field range: the scorer chosen by min/max pruning -/
+
+/-- `search_on_u64_ff`: whichever scorer the pruning picks — `EmptyScorer` (empty value range, incl.
+the `checked_add` / `checked_sub` overflows), `AllScorer` (range covering [min, max] of a full
+column) or a `RangeDocSet` over the clamped range — it selects a value of the column iff the value
+lies within the query bounds, for every inclusive / exclusive / unbounded combination and any
+column bounds `colMin ≤ v ≤ colMax` (they need not be tight) -/
+theorem C03_fast_range_pruning_sound (lo hi : BndN) (colMin colMax : Nat) (full : Bool) (v : Nat)
+    (hmin : colMin ≤ v) (hmax : v ≤ colMax) (hv : v ≤ FastRange.U64MAX) :
+    (FastRange.classify lo hi colMin colMax full).selects v = inRangeN lo hi v :=
+  FastRange.classify_sound lo hi colMin colMax full v hmin hmax hv
+
+/-- in particular the type-based All/Empty elimination of `complex_scorer` is fed correct facts:
+`AllScorer` only for a full column all of whose values are in range, `EmptyScorer` only when none is -/
+theorem C03_fast_range_all_empty (lo hi : BndN) (colMin colMax : Nat) (full : Bool) :
+    (FastRange.classify lo hi colMin colMax full = .all →
+        full = true ∧ ∀ v, colMin ≤ v → v ≤ colMax → v ≤ FastRange.U64MAX → inRangeN lo hi v = true)
+      ∧ (FastRange.classify lo hi colMin colMax full = .empty →
+        ∀ v, colMin ≤ v → v ≤ colMax → v ≤ FastRange.U64MAX → inRangeN lo hi v = false) :=
+  FastRange.classify_all_empty lo hi colMin colMax full
+
 /-! ## range over a numeric JSON path: bound type × column type -/
 
 /-- `search_on_json_numerical_field` + `transform_from_f64_bounds`: for every bound kind (inclusive /
@@ -630,6 +721,52 @@ theorem C03_json_range_coercion_extracted (col : JsonRange.ColT) (lo hi : JsonRa
   · rw [hg]; exact C03_json_range_coercion col lo hi v hv hlo hhi
   · rw [hg, JsonRange.implMatchG_pinned]
     exact C03_json_range_coercion_partial col lo hi v hv hlo hhi hl hu
+
+/-- the guards read from the source as it is now: all three rows are in their repaired form
+(fix 72d566d2e); this theorem stops checking if one of them regresses -/
+theorem C03_json_range_guards_repaired : JsonRange.Guards.extracted = JsonRange.Guards.repaired := by
+  decide
+
+/-- hence, for the code as it is now, the executed table is exact for every bound kind, bound type
+(i64 / u64 / f64 term, |f64| < 2^52) and integer column type — no side condition left -/
+theorem C03_json_range_coercion_current (col : JsonRange.ColT) (lo hi : JsonRange.B) (v : Int)
+    (hv : JsonRange.inCol col v) (hlo : lo.wf) (hhi : hi.wf) :
+    JsonRange.implMatchG JsonRange.Guards.extracted col lo hi v = JsonRange.specMatch lo hi v :=
+  C03_json_range_coercion_extracted col lo hi v hv hlo hhi (Or.inl C03_json_range_guards_repaired)
+
+/-- column type of a merged segment (`merged_numerical_columns_type`), for a path whose values
+were supplied as u64: feeding the (min, max) of the source columns to the writer's accumulator
+gives the type the writer would give the union of all source values (deleted documents of a
+source segment included) — so the type of `attrs.p` after a merge is again `colOf` of its values,
+and the bound-conversion theorems apply to merged segments too -/
+theorem C03_json_merged_column_type (segs : List JsonRange.SegVals) (hok : ∀ s ∈ segs, s.ok) :
+    JsonRange.mergedCol (segs.map JsonRange.SegVals.src)
+      = (JsonRange.colOf true (segs.flatMap (·.vals))).lift :=
+  JsonRange.mergedCol_u64_supplied segs hok
+
+/-- the same for any mix of i64- and u64-supplied values, f64 outcome included (negative values
+next to values ≥ i64::MAX): the merged column's type is the write-time type `writtenCol` of all
+source values together — merging never changes the type a path would have had in one segment -/
+theorem C03_json_merged_column_type_mixed (segs : List JsonRange.SegMix) (hok : ∀ s ∈ segs, s.ok) :
+    JsonRange.mergedCol (segs.map JsonRange.SegMix.src)
+      = JsonRange.writtenCol (segs.flatMap (·.vals)) :=
+  JsonRange.mergedCol_mixed segs hok
+
+/-- `writtenCol` restricted to one supplied type is `colOf` -/
+theorem C03_json_written_column_type_single (sup : Bool) (vals : List Int) :
+    JsonRange.writtenCol (vals.map (fun v => (sup, v))) = (JsonRange.colOf sup vals).lift := by
+  unfold JsonRange.writtenCol JsonRange.colOf JsonRange.pI JsonRange.pU
+  cases sup with
+  | false => simp [JsonRange.ColT.lift]
+  | true =>
+    have hU : (vals.map (fun v => (true, v))).all (fun p => p.1 || decide (0 ≤ p.2)) = true := by
+      simp
+    simp only [List.all_map, Bool.not_true, Bool.false_or] at hU ⊢
+    by_cases h : vals.all (fun v => decide (v < JsonRange.I64MAX)) = true
+    · have h' : (vals.all ((fun p : Bool × Int => !p.1 || decide (p.2 < JsonRange.I64MAX)) ∘ fun v => (true, v))) = true := by
+        simpa [Function.comp_def] using h
+      simp [h, h', JsonRange.ColT.lift]
+    · simp [h, JsonRange.ColT.lift, Function.comp_def]
 
 /-- integer-typed bounds (i64 / u64 terms): only the lower-bound condition remains -/
 theorem C03_json_int_range_coercion_partial (col : JsonRange.ColT) (lo hi : JsonRange.B) (v : Int)
@@ -758,6 +895,24 @@ example : JsonRange.Guards.extracted = JsonRange.Guards.repaired ∨ JsonRange.G
 example : JsonRange.implMatchG JsonRange.Guards.repaired .u64 .unb (.incl (.f (-3))) 0 = false
     ∧ JsonRange.implMatchG JsonRange.Guards.repaired .i64 (.incl (.f 5)) .unb 2 = false
     ∧ JsonRange.implMatchG JsonRange.Guards.repaired .i64 (.incl (.u (2 ^ 63))) .unb 5 = false := by decide
+example : FastRange.classify (.incl 3) (.excl 10) 3 9 true = .all
+    ∧ FastRange.classify (.incl 3) (.excl 10) 3 9 false = .range 3 9
+    ∧ FastRange.classify (.excl 9) .unb 3 9 true = .empty
+    ∧ FastRange.classify .unb (.excl 0) 0 9 true = .empty
+    ∧ FastRange.classify (.excl FastRange.U64MAX) .unb 0 FastRange.U64MAX true = .empty
+    ∧ (3 : Nat) ≤ 5 ∧ (5 : Nat) ≤ FastRange.U64MAX := by decide
+example : (∀ x ∈ ([1, 2] : List Nat), ∀ y ∈ ([9] : List Nat), 3 < dist x y)
+    ∧ PhraseSlop.carrying [1, 2] [] [9] 3 = (0, [], [])
+    ∧ 0 < (PhraseSlop.carrying [1, 5] [] [4, 6] 3).1 ∧ ([[7]] : List (List Nat)) ≠ [] := by decide
+example : (JsonRange.SegVals.mk [3, 9] 3 9).ok ∧ (JsonRange.SegVals.mk [2 ^ 63, 0] 0 (2 ^ 63)).ok
+    ∧ JsonRange.mergedCol [⟨.i64, 3, 9⟩, ⟨.u64, 0, 2 ^ 63⟩] = .u64
+    ∧ JsonRange.mergedCol [⟨.i64, -3, 9⟩, ⟨.u64, 0, 2 ^ 63⟩] = .f64 := by
+  refine ⟨?_, ?_, by decide, by decide⟩
+  · refine ⟨by simp, by simp, ?_, ?_⟩ <;> intro v hv <;> simp at hv <;> rcases hv with rfl | rfl <;> decide
+  · refine ⟨by simp, by simp, ?_, ?_⟩ <;> intro v hv <;> simp at hv <;> rcases hv with rfl | rfl <;> decide
+example :
+    let c : Corpus := [⟨[⟨1, [⟨1, [97], [0, 4]⟩], []⟩], [true]⟩]
+    c.all (fun s => docsWfB s.docs && s.alive.length == s.docs.length) = true := by decide
 example : (JsonRange.B.excl (.f (-3))).small ∧ (JsonRange.B.incl (.i 7)).small
     ∧ JsonRange.implMatchF (.excl (.f (-3))) (.incl (.i 7)) 5 = true
     ∧ JsonRange.implMatchF (.excl (.f (-3))) (.incl (.i 7)) (-3) = false := by
